@@ -88,13 +88,13 @@ func TestVerifC03Pool(t *testing.T) {
 		lenDesc = "all 0..capacity"
 		dirtyLens = []int{capacity, 65, 1}
 	} else if mc.Thorough() {
-		c := []int{0, 1, 63, 64, 65}
-		for s := 128; s <= capacity; s *= 2 {
-			c = append(c, s-1, s, s+1, s+65)
+		c := []int{0, 1, 65}
+		for s := 128; s < capacity; s *= 4 {
+			c = append(c, s+1)
 		}
-		c = append(c, capacity/2+capacity/4+65, capacity-64, capacity-63)
+		c = append(c, capacity/2+capacity/4+65, capacity-63, capacity)
 		lengths = verifC03Uniq(c, 0, capacity)
-		lenDesc = "0,1,63,64,65, s+{-1,0,1,65} for s=128*2^k, 3/4cap+65, cap-64, cap-63"
+		lenDesc = "0,1,65, 128*4^k+1, 3/4cap+65, cap-63, cap"
 	} else {
 		lengths = verifC03Uniq([]int{0, 65, capacity/2 + 65, capacity}, 0, capacity)
 		lenDesc = "0,65,cap/2+65,cap"
@@ -103,8 +103,11 @@ func TestVerifC03Pool(t *testing.T) {
 	orig := instance
 	defer func() { instance = orig }()
 	nCuts, nSpans := 3, 2
-	if capacity > 1024 && !mc.Thorough() {
+	if capacity > 1024 {
 		nCuts, nSpans = 2, 1
+		if mc.Thorough() {
+			nCuts = 3
+		}
 	}
 	mc.Run(t, mc.Config{ID: "C03", Name: fmt.Sprintf("C03-data-bmtpool-%dsegments", boson.BmtBranches), MaxDev: -1, ShardLevels: 1, Params: map[string]interface{}{
 		"pool": "bmtpool.Get/Put on a fresh 32-tree instance per execution", "pool_capacity": Capacity, "segments": boson.BmtBranches, "capacity": capacity,
